@@ -7,7 +7,7 @@
 #include <ctype.h>
 
 static char g_edir[300], g_odir[300], g_frag_e[330], g_frag_o[330];     /* an empty directory and one holding the single regular file "f" */
-static const char *FRAG[40] = { "a", " ", "~", "\\n", "\\\\", "\\'", "\\", "'", "\"", "$V", "${V}", "$(V)", "$E", "$U", "${U}", "${V", "$", "$VV",
+static const char *FRAG[48] = { "a", " ", "~", "\\n", "\\\\", "\\'", "\\", "'", "\"", "$V", "${V}", "$(V)", "$E", "$U", "${U}", "${V", "$", "$VV",
                               "%appname()", "%version()", "%random(w)", "%get(k)", "%get(k d)", "%get(", ")", "%", "(", "x" };
 static int NFRAG = 28;
 static const char *HOMES[3] = { "/h", "", NULL };
@@ -41,6 +41,16 @@ static int ref_words(const char *s, char w[3][1200])
     }
     return n;
 }
+/* what a command contributes: its output with every whitespace run condensed to one blank and no trailing blank; nothing if it printed nothing */
+static void ref_exec(const char *cmd, ref_t *r)
+{
+    char out[2100], c[2100]; size_t o = 0; int sp = 0;
+    emu_output(cmd, out, sizeof out);
+    if (!out[0]) return;
+    for (size_t i = 0; out[i]; i++) { if (isspace((unsigned char) out[i])) { if (!sp) c[o++] = ' '; sp = 1; } else { c[o++] = out[i]; sp = 0; } }
+    if (o && c[o - 1] == ' ') o--;
+    r_put(r, c, o);
+}
 static int ref_builtin(int k, const char *arg, ref_t *r)
 {
     ref_t *a = calloc(1, sizeof *a); int ok = ref_expand(arg, a);
@@ -58,7 +68,8 @@ static int ref_builtin(int k, const char *arg, ref_t *r)
               const char *d = a->out; while (*d == ' ') d++;
               if (!strcmp(d, g_odir)) r_put(r, "f ", 2); else if (strcmp(d, g_edir)) r->foreign_percent = 1;
               break; }
-    default: r->foreign_percent = 1; break;       /* exec/put are not in the stateless alphabet */
+    case 2: ref_exec(a->out, r); break;
+    default: r->foreign_percent = 1; break;       /* put is not in the stateless alphabet */
     }
     free(a);
     return 1;
@@ -103,6 +114,17 @@ static int ref_expand(const char *s, ref_t *r)
                 if (v && *v) r_put(r, v, strlen(v));
             }
         }
+        else if (c == '`') {
+            if (in_single) { r_put(r, "`", 1); i++; }
+            else {          /* the command runs to the closing backquote (or the end of the text), is expanded itself, and is replaced by its output */
+                size_t e = i + 1; while (s[e] && s[e] != '`') e++;
+                char *cmd = malloc(e - i); memcpy(cmd, s + i + 1, e - i - 1); cmd[e - i - 1] = 0;
+                ref_t *a = calloc(1, sizeof *a); int ok = ref_expand(cmd, a); a->out[a->n] = 0; r->foreign_percent |= a->foreign_percent;
+                if (ok) ref_exec(a->out, r); else r->foreign_percent = 1;
+                free(a); free(cmd);
+                i = s[e] ? e + 1 : e;
+            }
+        }
         else if (c == '"') { if (!in_single) in_double = !in_double; r_put(r, "\"", 1); i++; }
         else if (c == '\'') { in_single = !in_single; r_put(r, "'", 1); i++; }
         else { r_put(r, &c, 1); i++; }
@@ -142,9 +164,9 @@ static __attribute__((noinline)) char *expand_in(const char *in, size_t blk, int
     *keep = s;
     mc_dirty_heap(fill);
     mc_dirty_stack(fill, 3 * CONFIG_BUFF);
-    g_env_on = 1; g_allow_fork = 0;
+    g_env_on = 1; g_allow_fork = 0; g_exec_emul = 1;          /* commands are emulated (confcommon.h): no process is started */
     char *r = (char *) spifconf_shell_expand((spif_charptr_t) s);
-    g_env_on = 0; g_allow_fork = 1;
+    g_env_on = 0; g_allow_fork = 1; g_exec_emul = 0;
     return r;
 }
 static void a_case(uint64_t idx, void *ctx)
@@ -178,9 +200,9 @@ static void a_case(uint64_t idx, void *ctx)
 }
 
 /* ------------------------------------------------------------------ (B) %put / %get histories (E1) */
-static const char *VOPS[] = { "%put(k v1)", "%put(k v2)", "%put(j v1)", "x%get(k)y", "%get(j)", "%get(k dflt)", "%put(k)", "%get(%get(j))", "%put(a %get(k))", "%put(j '')", "p%get(j)q", "%put(K v3)", "u%get(K)w" };      /* K and k are different variables */
+static const char *VOPS[] = { "%put(k v1)", "%put(k v2)", "%put(j v1)", "x%get(k)y", "%get(j)", "%get(k dflt)", "%put(k)", "%get(%get(j))", "%put(a %get(k))", "%put(j '')", "p%get(j)q", "%put(K v3)", "u%get(K)w", "%put(\xe9t v4)", "s%get(\xe9t)t" };      /* K and k are different variables */
 #define NVOPS ((int) (sizeof VOPS / sizeof VOPS[0]))
-typedef struct { char k[8], j[8], a[8], K[8]; int hk, hj, ha, hK; int init; } vs_t;      /* h*: the variable exists (its value may be empty) */
+typedef struct { char k[8], j[8], a[8], K[8], E[8]; int hk, hj, ha, hK, hE; int init; } vs_t;      /* E: the variable whose name starts with the byte 0xE9 */      /* h*: the variable exists (its value may be empty) */
 static vs_t *g_vs;
 static const char *m_store_get(const char *key)
 {
@@ -189,6 +211,7 @@ static const char *m_store_get(const char *key)
     if (!strcmp(key, "j")) return g_vs->hj ? g_vs->j : NULL;
     if (!strcmp(key, "a")) return g_vs->ha ? g_vs->a : NULL;
     if (!strcmp(key, "K")) return g_vs->hK ? g_vs->K : NULL;
+    if (!strcmp(key, "\xe9t")) return g_vs->hE ? g_vs->E : NULL;
     return NULL;
 }
 static void v_name(int i, char *b, size_t n) { snprintf(b, n, "expand \"%s\"", VOPS[i]); }
@@ -204,7 +227,7 @@ static void v_check_store(vs_t *s, const char *shape)
         g_vs = s; const char *e = m_store_get((char *) v->var); g_vs = NULL;
         if (!e || strcmp(e, (char *) v->value)) { FAIL("spifconf_put_var", "model:store-content", shape, "store has %s=%s, model %s", (char *) v->var, (char *) v->value, e ? e : "(absent)"); return; }
     }
-    int want = s->hk + s->hj + s->ha + s->hK;
+    int want = s->hk + s->hj + s->ha + s->hK + s->hE;
     if (cnt != want) FAIL("spifconf_put_var", "model:store-size", shape, "store holds %d variables, model %d", cnt, want);
 }
 static void v_apply(void *vs, int op)
@@ -219,7 +242,7 @@ static void v_apply(void *vs, int op)
         char key[8] = "", val[60] = ""; ok = 1; expect[0] = 0;
         if (op == 8) { const char *kv = m_store_get("k"); if (kv && *kv) { snprintf(s->a, sizeof s->a, "%s", kv); s->ha = 1; } /* %put(a <value of k>): malformed (one word) when k is unset or empty */ }
         else if (op == 9) { s->j[0] = 0; s->hj = 1; }                          /* %put(j ''): the variable exists with an empty value */
-        else if (sscanf(VOPS[op] + 5, "%7[^ )] %50[^)]", key, val) == 2) { if (!strcmp(key, "k")) { snprintf(s->k, 8, "%s", val); s->hk = 1; } else if (!strcmp(key, "K")) { snprintf(s->K, 8, "%s", val); s->hK = 1; } else { snprintf(s->j, 8, "%s", val); s->hj = 1; } }
+        else if (sscanf(VOPS[op] + 5, "%7[^ )] %50[^)]", key, val) == 2) { if (!strcmp(key, "k")) { snprintf(s->k, 8, "%s", val); s->hk = 1; } else if (!strcmp(key, "K")) { snprintf(s->K, 8, "%s", val); s->hK = 1; } else if (!strcmp(key, "\xe9t")) { snprintf(s->E, 8, "%s", val); s->hE = 1; } else { snprintf(s->j, 8, "%s", val); s->hj = 1; } }
     } else { ok = ref_expand(VOPS[op], &R); R.out[R.n] = 0; snprintf(expect, sizeof expect, "%s", R.out); }
     char *k1; char *r = expand_in(VOPS[op], CONFIG_BUFF, 0xA5, &k1);
     g_vs = NULL;
@@ -228,7 +251,7 @@ static void v_apply(void *vs, int op)
     free(k1);
     v_check_store(s, shape);
 }
-static void v_canon(void *vs, char *b, size_t n) { vs_t *s = vs; snprintf(b, n, "k=%s%s j=%s%s a=%s%s K=%s%s", s->hk ? "" : "<unset>", s->k, s->hj ? "" : "<unset>", s->j, s->ha ? "" : "<unset>", s->a, s->hK ? "" : "<unset>", s->K); }
+static void v_canon(void *vs, char *b, size_t n) { vs_t *s = vs; snprintf(b, n, "k=%s%s j=%s%s a=%s%s K=%s%s E=%s%s", s->hk ? "" : "<unset>", s->k, s->hj ? "" : "<unset>", s->j, s->ha ? "" : "<unset>", s->a, s->hK ? "" : "<unset>", s->K, s->hE ? "" : "<unset>", s->E); }
 static void v_teardown(void *vs) { spifconf_free_subsystem(); free(vs); }
 
 /* ------------------------------------------------------------------ (C) the length limit */
@@ -289,7 +312,9 @@ int main(int argc, char **argv)
     FRAG[NFRAG++] = g_frag_e; FRAG[NFRAG++] = g_frag_o;
     /* a call nested in another call's arguments whose own argument grows on expansion (past its closing parenthesis), with text after it */
     FRAG[NFRAG++] = "%random($L)"; FRAG[NFRAG++] = "%get(q %random($L)-t)";
-    mc_info("alphabet", "(A) concatenations of <= %d of %d fragments {a, space, ~, \\n, \\\\, \\', lone \\, ', \", $V, ${V}, $(V), $E, $U, ${U}, unterminated ${V, lone $, $VV, %%appname(), %%version(), %%random(w), %%get(k), %%get(k d), %%get(, ), lone %%, (, x, %%dirscan(empty dir), %%dirscan(one-file dir), %%random($L), %%get(q %%random($L)-t) with L a 40-character value} "
+    /* commands (emulated): output with visible text, whitespace only, none; the backquote spelling and the %exec spelling */
+    FRAG[NFRAG++] = "`e hi  $V`"; FRAG[NFRAG++] = "`e`"; FRAG[NFRAG++] = "`t`"; FRAG[NFRAG++] = "%exec(e hi)"; FRAG[NFRAG++] = "%exec(e)"; FRAG[NFRAG++] = "`";
+    mc_info("alphabet", "(A) concatenations of <= %d of %d fragments {a, space, ~, \\n, \\\\, \\', lone \\, ', \", $V, ${V}, $(V), $E, $U, ${U}, unterminated ${V, lone $, $VV, %%appname(), %%version(), %%random(w), %%get(k), %%get(k d), %%get(, ), lone %%, (, x, %%dirscan(empty dir), %%dirscan(one-file dir), %%random($L), %%get(q %%random($L)-t) with L a 40-character value, `e hi  $V`, `e`, `t`, %%exec(e hi), %%exec(e), lone ` (commands emulated: 'e TEXT' prints TEXT)} "
             "x HOME in {/h, empty, unset}; each expanded twice under memory fills 0xA5/0x5A; (B) %%put/%%get histories over %d operations to a fixpoint; (C) %d fragments x 14 distances from the 20479-character limit x {with, without trailing text}",
             N, NFRAG, NVOPS, NLFRAG);
     if (!mc_arg("only", NULL) || !strcmp(mc_arg("only", ""), "a")) {
